@@ -23,9 +23,15 @@ RULE = ("env: seeded histories of setenv/unsetenv/get over a small pool of names
 EXPORTS = {"A": {b"nitro_verif_fa": lambda x: x + 1.0, b"nitro_verif_common": lambda x: x + 100.0},
            "B": {b"nitro_verif_fb": lambda x: x * 2.0, b"nitro_verif_common": lambda x: x + 200.0},
            "SELF": {b"nitro_verif_self_fn": lambda x: x - 1.0}}
-SYMS = [b"nitro_verif_fa", b"nitro_verif_fb", b"nitro_verif_common", b"nitro_verif_self_fn", b"nitro_verif_missing"]
+SYMS = [b"nitro_verif_fa", b"nitro_verif_fb", b"nitro_verif_common", b"nitro_verif_self_fn", b"nitro_verif_missing",
+        b"nitro_verif_fa", b"nitro_verif_fb", b"nitro_verif_common",
+        b"_ZN5nitro5verif7missing" + b"I" * 230 + b"E", b"nitro_verif_missing_" + b"s" * 1000]
 MISSING = b"/nonexistent/libnitro_verif_missing.so"
 MISSING_BARE = b"nitro_verif_missing_bare"
+# diagnostics beyond 256 / 1024 bytes
+MISSING_NAMES = {"MISSING": MISSING, "MISSINGBARE": MISSING_BARE,
+                 "MISSINGLONG": b"/nonexistent/" + b"d" * 300 + b"/libx.so",
+                 "MISSINGHUGE": b"/nonexistent/" + b"/".join([b"e" * 200] * 6) + b".so"}
 
 
 def gen_dl(rng, n):
@@ -33,7 +39,7 @@ def gen_dl(rng, n):
     for _ in range(n):
         r = rng.random()
         if r < 0.22:
-            ops.append(("OPEN", rng.randrange(4), rng.choice(["A", "A", "B", "B", "SELF", "MISSING", "MISSINGBARE"])))
+            ops.append(("OPEN", rng.randrange(4), rng.choice(["A", "A", "A", "B", "B", "B", "SELF", "MISSING", "MISSINGBARE", "MISSINGLONG", "MISSINGHUGE"])))
         elif r < 0.30:
             ops.append(("COPYDL", rng.randrange(4), rng.randrange(4)))
         elif r < 0.34:
@@ -61,8 +67,7 @@ def dl_script(cid, ops):
     L = ["CASE " + cid]
     for op in ops:
         if op[0] == "OPEN":
-            L.append("OPEN %d %s" % (op[1], hx(MISSING) if op[2] == "MISSING" else
-                                     (hx(MISSING_BARE) if op[2] == "MISSINGBARE" else op[2])))
+            L.append("OPEN %d %s" % (op[1], hx(MISSING_NAMES[op[2]]) if op[2] in MISSING_NAMES else op[2]))
         elif op[0] == "LOAD":
             L.append("LOAD %d %d %s" % (op[1], op[2], hx(op[3])))
         elif op[0] == "CALL":
@@ -153,8 +158,8 @@ def judge_dl(ops, lines, S, case):
                 fail("open-did-not-call-dlopen-once", what)
                 return
             h = int(opens[0][3])
-            if lib in ("MISSING", "MISSINGBARE"):
-                want_name = hx(MISSING if lib == "MISSING" else MISSING_BARE)
+            if lib in MISSING_NAMES:
+                want_name = hx(MISSING_NAMES[lib])
                 if opens[0][2] != want_name:
                     fail("dlopen-called-with-another-name", "%s: dlopen(%s)" % (what, opens[0][2][:80]))
                     return
@@ -168,6 +173,8 @@ def judge_dl(ops, lines, S, case):
                          (what, f[2][:80], errs[-1][2][:80] if errs else None))
                     return
                 S.counters["failed-opens"] += 1
+                if len(f[2]) > 2 * 256:
+                    S.counters["diagnostics-of-256-bytes-and-more"] += 1
                 if any(not x["closed"] for x in M.inst):
                     S.counters["failed-opens-while-libraries-live"] += 1
             else:
@@ -229,6 +236,8 @@ def judge_dl(ops, lines, S, case):
                         fail("exception-lacks-the-loader-diagnostic", what)
                         return
                     S.counters["failed-lookups"] += 1
+                    if len(f[2]) > 2 * 256:
+                        S.counters["diagnostics-of-256-bytes-and-more"] += 1
                 else:
                     if res != "L ok":
                         fail("present-symbol-raised", "%s in %s -> %s" % (name, lib, res[:200]))
@@ -507,7 +516,8 @@ def run(tier, replay=None):
     run_.coverage["counters"] = dict(sorted(S.counters.items()))
     run_.coverage.update(sec)
     if not replay:
-        for need in ("calls-after-the-library-object-died", "failed-opens-while-libraries-live", "failed-lookups",
+        for need in ("diagnostics-of-256-bytes-and-more", "calls-after-the-library-object-died",
+                     "failed-opens-while-libraries-live", "failed-lookups",
                      "read:set-empty", "read:unset", "dlclose-events"):
             if S.counters.get(need, 0) == 0:
                 run_.inconc("never exercised: " + need)
